@@ -102,18 +102,11 @@ Proof.
 Qed.
 Print Assumptions C17_cached_terms_are_current_after_set_state.
 
-(* Full statement for arbitrary accessor sequences, which the code does NOT
-   satisfy:  forall c k tms, snd (c_run c (SetState k :: map Get tms))
-                             = None :: map (fun _ => Some (k, k)) tms.
-   _compute_L0a multiplies L with self._a without checking _a_set, so L0a()
-   called before a() after a set_state uses the previous state's drift.  No
-   stepper does that (they all call a() first), it is reachable through the
-   public accessor only. *)
-Theorem C17_cached_L0a_current_for_any_accessor_order_refuted :
-  exists c k tms,
-    snd (c_run c (SetState k :: map Get tms)) <> None :: map (fun _ => Some (k, k)) tms.
-Proof.
-  exists (fst (c_run cache0 [:: SetState 1%N; Get Ta])), 2%N, [:: TL0a].
-  by vm_compute.
-Qed.
-Print Assumptions C17_cached_L0a_current_for_any_accessor_order_refuted.
+(* ... and for ANY order of accessor calls (every _compute_* method makes sure
+   of its own inputs; _compute_L0a did not before the fix recorded in
+   known_findings.json). *)
+Theorem C17_cached_terms_are_current_for_any_accessor_order :
+  forall (c : cache) (k : nat) (tms : list term),
+    snd (c_run c (SetState k :: map Get tms)) = None :: map (fun _ => Some (k, k)) tms.
+Proof. exact: any_step_reads_current_state. Qed.
+Print Assumptions C17_cached_terms_are_current_for_any_accessor_order.
